@@ -22,6 +22,7 @@ import Bourse.Spec.Ref
 import Driver.Parse
 import Driver.EnvDrive
 import Driver.ShapeDrive
+import Driver.MomDrive
 import Std.Data.HashMap
 import Std.Data.HashSet
 
@@ -259,6 +260,15 @@ partial def loop (inp out : IO.FS.Stream) (st : St) : IO St := do
       loop inp out { st with ehist := some eh', stats := stats, nOps := st.nOps + (if tags.isEmpty then 0 else 1),
                              nK := st.nK + nK, nA := st.nA + nA }
     | none => loop inp out (← handleObs st rest out)
+  | "MM" :: rest =>
+    let st := finishHist st
+    let (lines, tags) := handleMom rest
+    for l in lines do emit out l
+    let mut stats := st.stats
+    for t in tags do stats := bump stats t
+    loop inp out { st with stats := stats, nHist := st.nHist + 1, nOps := st.nOps + 1,
+                           nNontrivial := st.nNontrivial + (if tags.contains "mom:with_orders" then 1 else 0),
+                           nA := st.nA + (lines.filter (·.startsWith "A ")).length }
   | "S" :: rest =>
     let st := finishHist st
     let (lines, tags) := handleShape rest
